@@ -99,6 +99,20 @@ const IDIOMS: &[(&str, &str)] = &[
         "=== k@ ===\nNothing yet: {LIST_INVERT(nothing@())} / {LIST_ALL(nothing@())}.\n~ bag@ = nothing@()\nBag {bag@} all {LIST_ALL(bag@)}.\n~ clear@(inv@)\nInv {inv@} inverse {LIST_INVERT(inv@)}.\nStill nothing: {LIST_INVERT(nothing@())}.\n-> NEXT\n=== function nothing@() ===\n~ return ()\n=== function clear@(ref v) ===\n~ v = ()\nGLOB LIST F@ = apple@, banana@\nGLOB LIST T@ = (hammer@), saw@\nGLOB VAR bag@ = (F@.apple@)\nGLOB VAR inv@ = (T@.hammer@)\n",
     ),
     (
+        // a thread that leaves only a fallback choice behind, started in the middle of a
+        // paragraph: the host stops on the following lines with nothing but an invisible choice
+        // pending (evaluate_function, saves and slices meet that state)
+        "thread_leaves_fallback_midparagraph",
+        "=== k@ ===\nBefore {pure_double@(2)}.\n<- side@\nFirst after.\nSecond after {seen@}.\nThird after.\n* [go on@] -> NEXT\n=== side@ ===\nSide text.\n~ seen@ = seen@ + 1\n* {seen@ > 5} [never@] -> NEXT\n* -> rescue@\n=== rescue@ ===\nRescued. -> NEXT\n=== function pure_double@(pval@) ===\n~ return pval@ * 2\n=== function pure_say@(pword@) ===\nSaying {pword@}.\nGLOB VAR seen@ = 0\n",
+    ),
+    (
+        // two threads in a row: the first offers a choice and ends, the second prints several
+        // lines, so the host can stop (and save) inside the second thread while a choice of
+        // the first is pending
+        "two_threads_in_a_row",
+        "=== k@ ===\nStart.\n~ temp secret@ = 42\n<- offers@(secret@)\n<- talks@\nEnd of k {secret@}.\n* [main choice@] -> NEXT\n=== offers@(s) ===\nOffer text.\n* [take offer@] Taken {s} {offers@}. -> NEXT\n=== talks@ ===\nTalk one.\nTalk two.\nTalk three.\n-> DONE\n",
+    ),
+    (
         // two lists, declared in non-alphabetical order, share an item NAME that the story uses
         // without its list: which list it means is fixed by the program (declaration order),
         // not by a loader or a hash order
